@@ -1,6 +1,7 @@
 use crate::engine::{Check, Ctx, Report};
 use serde_json::Value as J;
 
+pub mod c07;
 pub mod c13;
 pub mod c14;
 pub mod c17;
@@ -15,6 +16,7 @@ pub struct Property {
 
 pub fn all() -> Vec<Property> {
     vec![
+        Property { id: "C07", run: c07::run, replay: c07::replay },
         Property { id: "C13", run: c13::run, replay: c13::replay },
         Property { id: "C14", run: c14::run, replay: c14::replay },
         Property { id: "C17", run: c17::run, replay: c17::replay },
